@@ -936,9 +936,19 @@ fn c05(tier: &str, thorough: bool) -> i32 {
 fn c11(tier: &str, thorough: bool) -> i32 {
     let ctx = leak(Ctx::new("C11", tier, "exploration", "e5", &["panic", "hang", "abort", "memory"]));
     ctx.assume("every case runs in an isolated worker process (stall limit 30 s, confirmed alone with 60 s)");
-    ctx.set_rule("every single corruption of the C05 enumeration that permissive open accepts x every mutation script up to the depth (quick 1, thorough 2) over: create small / large stream, create storage, create under each storage, rewrite / append / set_len(0, 100, 5000) / remove on each existing stream, remove each storage, remove_storage_all(/), setters, flush; each script starts from a fresh open of the corrupted bytes; oracle: Ok or Err, never a panic, hang or abort");
+    ctx.set_rule("every single corruption of the C05 enumeration that permissive open accepts x every mutation script up to the depth (quick 1, thorough 2) over: create small / large stream, create storage, create under each storage, rewrite / append / set_len(0, 100, 5000) / remove on each existing stream, remove each storage, remove_storage_all(/), setters, flush; each script starts from a fresh open of the corrupted bytes; plus all pairs of chain-cell corruptions on one (thorough: four) bases x every script of length 1; oracle: Ok or Err, never a panic, hang or abort");
     let only: Option<Vec<&str>> = if thorough { None } else { Some(vec!["fresh-v3", "tree-v3", "mixed-v3", "dir2-v3", "minifull-v3", "synth-three-minis-v3", "fresh-v4"]) };
-    let (cases, scripts) = sweep_all(ctx, crate::e5::Mode::Mutating(if thorough { 2 } else { 1 }), thorough, &[], only.as_deref());
+    let (mut cases, mut scripts) = sweep_all(ctx, crate::e5::Mode::Mutating(if thorough { 2 } else { 1 }), thorough, &[], only.as_deref());
+    // all pairs of chain-cell corruptions (see C05) that permissive open accepts x every script of length 1
+    let chain_bases: Vec<&str> = if thorough { vec!["tree-v3", "mixed-v3", "minifull-v3", "tree-v4"] } else { vec!["tree-v3"] };
+    for b in chain_bases {
+        let id = format!("chains:{}", b);
+        let st = crate::e5::sweep_base(ctx, crate::e5::Mode::Mutating(1), &id, thorough, true, 16);
+        ctx.note(format!("base {}: all pairs of chain-cell corruptions: cases={} scripts={} problems={} worker restarts={}", id, st.cases, st.scripts, st.problems, st.restarts));
+        cases += st.cases;
+        scripts += st.scripts;
+        ctx.add("worker_restarts", st.restarts);
+    }
     ctx.set("evaluations", scripts);
     ctx.set("distinct_nontrivial", cases);
     ctx.finish(cases, scripts)
